@@ -55,6 +55,35 @@ func Run(c *common.Ctx) error {
 		cf.Add(h.CoqCase(), map[string]any{"kind": "history", "page_size": cfg.PageSize, "scripted": "client behaviours", "steps": h.Steps})
 		h.Close()
 	}
+	// a rollback-journal transaction on a database LiteFS tracks as WAL: SQLite leaves WAL mode by closing the log and then
+	// rewriting page 1 with version 1 under a rollback journal (the header on disk still names WAL at that point)
+	for _, jm := range []int{0, 1, 2} {
+		cfg := hist.Config{PageSize: 512, AllowWAL: true}
+		h, err := hist.New(c, c.Rng.Fork(), cfg)
+		if err != nil {
+			if h != nil {
+				h.Close()
+			}
+			return fmt.Errorf("history setup: %w", err)
+		}
+		for _, st := range []hist.Step{
+			{Op: "rtx", Writes: map[uint32]uint64{1: 1, 2: 2, 3: 3}, NewSize: 3, ToWAL: true},
+			{Op: "wtx", Frames: [][2]uint64{{2, 12}, {4, 14}}, NewSize: 4},
+			{Op: "torollbackj", JMode: jm},
+			{Op: "rtx", Writes: map[uint32]uint64{2: 22, 5: 25}, NewSize: 5, JMode: jm},
+			{Op: "rtx", Writes: map[uint32]uint64{1: 31}, NewSize: 5, ToWAL: true},
+			{Op: "torollbackj", JMode: jm}, // straight back, nothing in the log
+			{Op: "rtx", Writes: map[uint32]uint64{3: 43}, NewSize: 4, JMode: jm},
+		} {
+			if ob := h.Exec(st); ob.Panic != "" || len(ob.Exits) > 0 {
+				break
+			}
+		}
+		h.CheckCrash(c, "C02")
+		h.CheckCapture(c, "C02", map[string]bool{"rtx": true, "lockonly": true, "torollbackj": true, "wtx": true})
+		cf.Add(h.CoqCase(), map[string]any{"kind": "history", "page_size": cfg.PageSize, "scripted": "leaving WAL mode", "steps": h.Steps})
+		h.Close()
+	}
 	nHist := c.Pick(18, 160)
 	for i := 0; i < nHist; i++ {
 		cfg := cfgs[i%len(cfgs)]
